@@ -142,7 +142,9 @@ Record pobs := { po_ret : list (nat * option Z);   (* consumers whose Pop has re
                  po_stuck : list nat;
                  po_token : bool;                  (* len(WaitCh()) = 1 *)
                  po_len : nat }.                   (* Len() *)
-Inductive pevent := PELab (l : plabel) (o : pout) | PEObs (ob : pobs).
+(* PEMid: len(WaitCh()) = 1 read while calls are parked at the entry of their critical section (the queue's mutex is
+   held through the verif hook priq.VerifHold): nothing of those calls has happened yet *)
+Inductive pevent := PELab (l : plabel) (o : pout) | PEObs (ob : pobs) | PEMid (tok : bool).
 
 Definition oz_eqb (a b : option Z) : bool :=
   match a, b with Some x, Some y => Z.eqb x y | None, None => true | _, _ => false end.
@@ -182,6 +184,7 @@ Fixpoint preplay (s : pst) (tr : list pevent) : bool :=
                       | None => false
                       end
   | PEObs ob :: r => pobs_ok s ob && preplay s r
+  | PEMid tok :: r => Bool.eqb (token s) tok && preplay s r
   end.
 
 (* ---------------- the monitor ---------------- *)
@@ -214,6 +217,7 @@ Fixpoint pmonitor (m : pmon) (tr : list pevent) : bool :=
   | [] => true
   | PELab l o :: r => pmonitor (pmon_lab m l o) r
   | PEObs ob :: r => pmon_obs m ob && pmonitor m r
+  | PEMid _ :: r => pmonitor m r        (* a call is in progress: the clause does not speak about this moment *)
   end.
 
 Fixpoint plab_items (tr : list pevent) : list Z :=
